@@ -425,7 +425,28 @@ theorem otherPipeline_named (ev : Evalr ρ) (st : St ρ) (e e' : Elem) (rng : ρ
   have d5 : NameD p5.1 := evalAttributes_named ev _ e4 p5.1 p5.2 d4 h5
   exact resolvePosition_named _ _ _ d5 h6
 
+theorem augKeys_names : ∀ k ∈ Ctl.augKeys, isName k = true := by decide +kernel
+
+/-- a tree element stored as a default (without `id` / `match`) still has unique Names as attribute names -/
+theorem storedDefault_named (e : Elem) (hd : NameD e) : NameD (storedDefault e) := by
+  refine ⟨storedDefault_nodup hd.1, hd.2.1, fun k hk => ?_⟩
+  obtain ⟨x, hx, rfl⟩ := List.mem_map.mp hk
+  exact hd.2.2 x.1 (List.mem_map.mpr ⟨x, storedDefault_mem hx, rfl⟩)
+
+/-- `apply_defaults` writes attribute names of the element, of the stored defaults, and `style` / `text-style` /
+    `transform` -/
+theorem applyDefaultList_named (defs : List (ElementMatch × Elem)) (e : Elem) (hd : NameD e)
+    (hdefs : ∀ d ∈ defs, NameD d.2) : NameD (applyDefaultList defs e) := by
+  refine ⟨applyDefaultList_nodup defs hd.1, by rw [applyDefaultList_name]; exact hd.2.1, fun k hk => ?_⟩
+  obtain ⟨x, hx, rfl⟩ := List.mem_map.mp hk
+  rcases applyDefaultList_mem hx with h | ⟨d, hdm, h⟩ | h
+  · exact hd.2.2 x.1 (List.mem_map.mpr ⟨x, h, rfl⟩)
+  · exact (hdefs d hdm).2.2 x.1 (List.mem_map.mpr ⟨x, h, rfl⟩)
+  · exact augKeys_names x.1 h
+
 theorem closed_names (ev : Evalr ρ) : Closed NameD NameD NameD ev where
+  storeD := fun e h => storedDefault_named e h
+  applyD := fun defs e hd hdefs => applyDefaultList_named defs e hd hdefs
   tD := fun _ h => h
   adapt := fun e hd => named_of_keysIn (adapt_keysIn e) (by simp) (Or.inl (adapt_name e)) hd
   evalAttrs := fun st e e' rng hd h => evalAttributes_named ev st e e' rng hd h
@@ -462,9 +483,17 @@ def DocNames (ks : Nodes) : Prop := NodesT NameD ks
 
 def StateNames (st : St ρ) : Prop := SInv NameD NameD st
 
-theorem stateNames_of_nil (st : St ρ) (h : st.originals = []) : StateNames st := by
+/-- no stored default anywhere in the scope stack (the initial state) -/
+def NoDefaults (st : St ρ) : Prop := ∀ s ∈ st.scopes, s.defaults = []
+
+theorem stateNames_of_nil (st : St ρ) (h : st.originals = []) (hdf : NoDefaults st) : StateNames st := by
   unfold StateNames SInv OrigOK
-  rw [h]; intro p hp; cases hp
+  rw [h]
+  refine ⟨?_, fun s hs d hd => ?_⟩
+  · intro p hp
+    cases hp
+  · rw [hdf s hs] at hd
+    cases hd
 
 /-- **every element name and attribute name of the output is an XML Name if those of the input are**: names in the
     output are names of the input or constants of the model (`genNames`, `genKeys`), all of which are Names -/
@@ -490,11 +519,11 @@ theorem transformDoc_namesOk (ev : Evalr ρ) (fuel : Nat) (st : St ρ) (ks : Nod
     evaluator, state without prior templates and fuel — a successful result is written as well-formed XML content
     and is reproduced byte for byte by a second read-and-write pass -/
 theorem transformDoc_wellformed_fixed_of_input (ev : Evalr ρ) (fuel : Nat) (st : St ρ) (ks : Nodes) (evs : List Ev)
-    (bb : Option Gen.BoundingBox) (hst : st.originals = []) (hu : DocUnique ks) (hn : DocNames ks)
+    (bb : Option Gen.BoundingBox) (hst : st.originals = []) (hdf : NoDefaults st) (hu : DocUnique ks) (hn : DocNames ks)
     (h : (transformDoc ev fuel st ks).2.2 = .ok (evs, bb)) :
     Spec.wfContent (write evs) = true ∧ passThroughW (write evs) = some (write evs) :=
   transformDoc_output_wellformed_fixed ev fuel st ks evs bb (stateUnique_of_nil st hst) hu h
-    (transformDoc_namesOk ev fuel st ks evs bb (stateNames_of_nil st hst) hn h)
+    (transformDoc_namesOk ev fuel st ks evs bb (stateNames_of_nil st hst hdf) hn h)
 
 /-- one condition on an input element: as the reader builds it, with XML Names -/
 def InputElemOk (e : Elem) : Prop :=
@@ -502,10 +531,10 @@ def InputElemOk (e : Elem) : Prop :=
 
 /-- the same theorem with a single hypothesis on the document tree -/
 theorem transformDoc_wellformed_fixed_of_input' (ev : Evalr ρ) (fuel : Nat) (st : St ρ) (ks : Nodes) (evs : List Ev)
-    (bb : Option Gen.BoundingBox) (hst : st.originals = []) (hks : NodesT InputElemOk ks)
+    (bb : Option Gen.BoundingBox) (hst : st.originals = []) (hdf : NoDefaults st) (hks : NodesT InputElemOk ks)
     (h : (transformDoc ev fuel st ks).2.2 = .ok (evs, bb)) :
     Spec.wfContent (write evs) = true ∧ passThroughW (write evs) = some (write evs) :=
-  transformDoc_wellformed_fixed_of_input ev fuel st ks evs bb hst
+  transformDoc_wellformed_fixed_of_input ev fuel st ks evs bb hst hdf
     (nodesT_mono (fun _ h => h.1) ks hks) (nodesT_mono (fun _ h => ⟨h.1.1, h.2.1, h.2.2⟩) ks hks) h
 
 /-- the events that get written: a real SVG document as it is, anything else after the root rewrite -/
@@ -527,14 +556,14 @@ theorem finalEvents_ok (cfg : Doc.RootCfg) (real : Bool) (evs fin : List Ev) (bb
     second read-and-write pass reproduces it byte for byte -/
 theorem transformDoc_written_strict (ev : Evalr ρ) (fuel : Nat) (st st' : St ρ) (ks : Nodes) (real : Bool)
     (evs fin : List Ev) (bb : Option Gen.BoundingBox) (cfg : Doc.RootCfg) (out : Str)
-    (hst : st.originals = []) (hks : NodesT InputElemOk ks)
+    (hst : st.originals = []) (hdf : NoDefaults st) (hks : NodesT InputElemOk ks)
     (h : transformDoc ev fuel st ks = (real, st', .ok (evs, bb)))
     (hf : finalEvents cfg real evs bb = some fin) (hw : writeChecked fin = some out) :
     Spec.wfContentStrict out = true ∧ passThroughW out = some out := by
   have h' : (transformDoc ev fuel st ks).2.2 = .ok (evs, bb) := by rw [h]
   have hu := transformDoc_attrsUnique ev fuel st ks evs bb (stateUnique_of_nil st hst)
     (nodesT_mono (fun _ h => h.1) ks hks) h'
-  have hn := transformDoc_namesOk ev fuel st ks evs bb (stateNames_of_nil st hst)
+  have hn := transformDoc_namesOk ev fuel st ks evs bb (stateNames_of_nil st hst hdf)
     (nodesT_mono (fun _ h => ⟨h.1.1, h.2.1, h.2.2⟩) ks hks) h'
   have hb := transformDoc_balanced ev fuel st ks evs bb h'
   obtain ⟨fb, fn, fu⟩ := finalEvents_ok cfg real evs fin bb hf hb hn hu
